@@ -588,7 +588,7 @@ func genC11Conc(t *rapid.T) interface{} {
 	c := &c11ConcCase{Engine: EnvStr("VERIF_ENGINE", EngMem)}
 	n := rapid.IntRange(3, 12).Draw(t, "nrounds")
 	for i := 0; i < n; i++ {
-		c.Rounds = append(c.Rounds, c11Round{Kind: rapid.SampledFrom([]string{"pine", "cas", "delcur"}).Draw(t, "kind"), N: rapid.IntRange(2, 4).Draw(t, "n")})
+		c.Rounds = append(c.Rounds, c11Round{Kind: rapid.SampledFrom([]string{"pine", "cas", "delcur", "skew"}).Draw(t, "kind"), N: rapid.IntRange(2, 4).Draw(t, "n")})
 	}
 	return c
 }
@@ -606,6 +606,44 @@ func runC11Conc(ci interface{}, st *CaseStats) error {
 	for ri, r := range c.Rounds {
 		key := []byte(fmt.Sprintf("c11c/key-%d", ri))
 		v0 := []byte("v0")
+		if r.Kind == "skew" {
+			// two batches, each conditioned on a key the other one overwrites (its compare-and-swap leaves the value as
+			// it is — a pure guard): whatever the order, the second one's condition no longer holds
+			g := [2][]byte{[]byte(fmt.Sprintf("c11c/guard-%d-a", ri)), []byte(fmt.Sprintf("c11c/guard-%d-b", ri))}
+			sb := kv.BeginBatchWrite()
+			sb.Put(g[0], v0, 0)
+			sb.Put(g[1], v0, 0)
+			if err := sb.Commit(ctx); err != nil {
+				return Inconclusivef("seed: %v", err)
+			}
+			start := make(chan struct{})
+			var errs [2]error
+			var wg sync.WaitGroup
+			for i := 0; i < 2; i++ {
+				wg.Add(1)
+				go func(i int) {
+					defer wg.Done()
+					<-start
+					b := kv.BeginBatchWrite()
+					b.CAS(g[i], v0, v0, 0)
+					b.Put(g[1-i], []byte(fmt.Sprintf("taken-by-%d", i)), 0)
+					errs[i] = b.Commit(ctx)
+				}(i)
+			}
+			close(start)
+			wg.Wait()
+			if errs[0] == nil && errs[1] == nil {
+				a, _ := kv.Get(ctx, g[0])
+				bb, _ := kv.Get(ctx, g[1])
+				return fmt.Errorf("round %d (skew): two batches, each conditioned on the key the other one overwrites, both took effect (guards now %q / %q): in either order the second one's condition did not hold", ri, a, bb)
+			}
+			if errs[0] == nil || errs[1] == nil {
+				st.Label("round:one-winner")
+			} else {
+				st.Label("round:no-winner")
+			}
+			continue
+		}
 		if r.Kind != "pine" {
 			b := kv.BeginBatchWrite()
 			b.Put(key, v0, 0)
